@@ -7,7 +7,6 @@ import (
 	"context"
 	"sync"
 
-	"github.com/efficientgo/core/errors"
 	"github.com/prometheus/prometheus/model/labels"
 
 	"github.com/thanos-community/promql-engine/execution/model"
@@ -82,6 +81,11 @@ func (c *coalesceOperator) Next(ctx context.Context) ([]model.StepVector, error)
 		go func(opIdx int, o model.VectorOperator) {
 			defer verifhook.Go("coal.next", opIdx)()
 			defer c.wg.Done()
+			defer func() {
+				if e := recover(); e != nil {
+					errChan <- recoverToError(e)
+				}
+			}()
 
 			in, err := o.Next(ctx)
 			if err != nil {
@@ -153,10 +157,7 @@ func (c *coalesceOperator) loadSeries(ctx context.Context) error {
 					return
 				}
 
-				switch err := e.(type) {
-				case error:
-					errChan <- errors.Wrapf(err, "unexpected error")
-				}
+				errChan <- recoverToError(e)
 
 			}()
 			series, err := c.operators[i].Series(ctx)
